@@ -1,5 +1,6 @@
 import Sismic.Proofs.RoundTrip
 import Sismic.Proofs.RoundTripTree
+import Sismic.Proofs.RoundTripBuild
 /-!
 # Property C11 — YAML export/import round-trip is lossless
 
@@ -85,6 +86,24 @@ theorem nothing_forgotten (c : Chart) (hw : WFChart c) (r : Name) (hr : c.root =
     (∀ m sd, c.stateFor m = some sd → (sd, c.parentFor m) ∈ flatS c F r none) ∧
     (∀ t ∈ c.transitions, { t with id := 0 } ∈ flatT c F r) :=
   flat_complete c hw r hr F hcov
+
+/-- **The round trip succeeds and is lossless** (document level): for every well-formed statechart
+    whose exported tree can be read back (`Covered`), `import_from_dict(export_to_dict(c))` returns a
+    statechart — every `add_state`, every `add_transition` and `validate()` accept — with the same
+    name, description and preamble, in which every lookup of a state (its `StateDef`: name, kind,
+    entry / exit code, initial, memory, contracts), of its parent and of its children (up to the
+    order of the list) gives what it gives in `c`, and whose transitions are those of `c` but for
+    their identities, up to order. -/
+theorem roundtrip_succeeds_and_is_lossless (c : Chart) (hw : WFChart c) (r : Name) (hr : c.root = some r)
+    (hcov : Covered c (c.states.length + 1) r)
+    (hdesc : c.description ≠ some "") (hpre : ∀ p, c.preamble = some p → p = mkCode p.src ∧ p.src ≠ "")
+    (fuel : Nat) (hfuel : sizeS c (c.states.length + 1) r < fuel) :
+    ∃ c', importDict fuel (exportDict c) = .ok c' ∧
+      c'.name = c.name ∧ c'.description = c.description ∧ c'.preamble = c.preamble ∧
+      (∀ n, c'.stateFor n = c.stateFor n) ∧ (∀ n, c'.parentFor n = c.parentFor n) ∧
+      (∀ q m, m ∈ c'.childrenFor q ↔ m ∈ c.childrenFor q) ∧ (∀ q, (c'.childrenFor q).Nodup) ∧
+      (c'.transitions.map (fun t => { t with id := 0 })).Perm (c.transitions.map (fun t => { t with id := 0 })) :=
+  import_export_succeeds c hw r hr hcov hdesc hpre fuel hfuel
 
 /-- non-vacuity: a compound root with a basic child and a transition is `Covered` -/
 example : Covered
